@@ -85,6 +85,12 @@ class Check:
         os.makedirs(BUILD, exist_ok=True)
         os.makedirs(EVID, exist_ok=True)
         os.makedirs(REPLAY, exist_ok=True)
+        # scratch worktrees of the repo lack the two git-ignored generated files; take /repo's copies
+        for rel in ('src/expr-info.cc', 'nl-writer2/include/mp/nl-opcodes.h'):
+            dst = os.path.join(REPO, rel)
+            src = os.path.join('/repo', rel)
+            if REPO != '/repo' and not os.path.exists(dst) and os.path.exists(src):
+                shutil.copy(src, dst)
         kf = os.path.join(VERIF, 'known_findings.json')
         self.known = [f for f in json.load(open(kf)).get('findings', [])] if os.path.exists(kf) else []
 
